@@ -314,3 +314,75 @@ theorem exists_after_write {d dt : Dir} {u : Bytes} {a e a0 : Bool} {x : Node}
     simp only [exists_, hv, Bool.not_true, Bool.false_eq_true, if_false, hl', hA, hU]
 
 end Whawty.Store
+
+namespace Whawty.Store
+open Whawty Whawty.Rec
+
+/-- After a successful set-admin the user exists under the new flag with the very same node. -/
+theorem setAdmin_ok {d d' : Dir} {u : Bytes} {st : Bool} (h : setAdmin d u st = .ok d') :
+    ∃ a x, exists_ d u = .ok (true, a) ∧ get d (fileName u a) = some x ∧
+      exists_ d' u = .ok (true, st) ∧ get d' (fileName u st) = some x := by
+  unfold setAdmin at h
+  split at h
+  · simp at h
+  · simp at h
+  · rename_i a he
+    obtain ⟨hv, hl, h1, _⟩ := exists_ok_iff he
+    obtain ⟨x, hun, hx⟩ := h1 rfl
+    have hl' : ¬ (u.length + adminExt.length > nameMax) := by omega
+    split at h
+    · rename_i heq
+      injection h with h; subst h; subst heq
+      exact ⟨a, x, he, hx, he, hx⟩
+    · rename_i hne
+      simp only at h
+      split at h
+      · simp at h
+      · simp at h
+      · rename_i x1 hy _ _
+        injection h with h; subst h
+        rw [hx] at hy; injection hy with hy; subst hy
+        refine ⟨a, x, he, hx, ?_, get_put_self _ _ _⟩
+        -- a ≠ st
+        cases st with
+        | true =>
+          have hA : has (put (del d (fileName u a)) (fileName u true) x) (u ++ adminExt) = true := by
+            have := get_put_self (del d (fileName u a)) (fileName u true) x
+            simp only [fileName, if_true] at this
+            simp [has, fileName, this]
+          simp only [exists_, hv, Bool.not_true, Bool.false_eq_true, if_false, hl', hA, if_true]
+        | false =>
+          have ha : a = true := by cases a <;> simp_all
+          subst ha
+          have hne2 : u ++ adminExt ≠ fileName u false := by
+            simp only [fileName, Bool.false_eq_true, if_false]; exact append_adminExt_ne_userExt u u
+          have hA : has (put (del d (fileName u true)) (fileName u false) x) (u ++ adminExt) = false := by
+            simp only [has]
+            rw [get_put_ne _ _ hne2]
+            have : u ++ adminExt = fileName u true := by simp [fileName]
+            rw [this, get_del_self]; rfl
+          have hU : has (put (del d (fileName u true)) (fileName u false) x) (u ++ userExt) = true := by
+            have e2 : u ++ userExt = fileName u false := by simp [fileName]
+            rw [e2]
+            simp [has, get_put_self]
+          simp only [exists_, hv, Bool.not_true, Bool.false_eq_true, if_false, hl', hA, hU]
+      · rename_i hn; rw [hx] at hn; simp at hn
+
+/-- Set-admin changes nothing about authentication but the reported admin flag. -/
+theorem setAdmin_authenticate (c : Cfg) {d d' : Dir} {u : Bytes} {st : Bool}
+    (h : setAdmin d u st = .ok d') (p : Bytes) :
+    authenticate c d' u p =
+      match authenticate c d u p with
+      | .ok r => .ok { r with isAdmin := st }
+      | .error e => .error e := by
+  obtain ⟨a, x, he, hx, he', hx'⟩ := setAdmin_ok h
+  simp only [authenticate, he, he', hx, hx']
+  cases x with
+  | dir => rfl
+  | file b =>
+    simp only
+    cases authFile c b p with
+    | error e => rfl
+    | ok r => obtain ⟨up, ts⟩ := r; rfl
+
+end Whawty.Store
